@@ -155,5 +155,15 @@ def _sig_boolarg(case, res):
     return sigs.boolarg_combination_wrong_sat(_cfg_script(case, d["config_sat"]))
 
 
+def _sig_nonincr(case, res):
+    d = res.detail or {}
+    if d.get("reference") != "unsat":
+        return False
+    cps = gen.check_points(case["script"])
+    ci = d.get("check_index", 0)
+    return sigs.nonincr_second_check(_cfg_script(case, d["config_sat"]), cps[ci][0] if ci < len(cps) else None)
+
+
 SIGNATURES = {"ghost-vars-theory-combination-wrong-sat": _sig_ghost,
-              "uf-bool-argument-theory-combination-wrong-sat": _sig_boolarg}
+              "uf-bool-argument-theory-combination-wrong-sat": _sig_boolarg,
+              "non-incremental-second-check-sat": _sig_nonincr}
